@@ -4,7 +4,9 @@ anchors through the bundled intermediate, every certificate on it valid and the 
 this signature's own timestamp - whose authority chains to the same anchors and is valid at that time - or now without one;
 a timestamp grafted from another signature condemns; --no-trust-chain asks not to judge) against the pipeline relic runs
 (Decide): AcceptsOnlyTrusted, AcceptsAllTrusted, NoAnchorNoTrust, ExpiredNeedsStamp, ForeignStampCondemns,
-StrangerNeverByAccident, liveness Terminates; 6 negative controls. Binding (A): every case as a real PKI on the real clock,
+StrangerNeverByAccident, liveness Terminates; 8 negative controls. The intermediate may travel with the signature, only inside
+the timestamp token, or have been met by an earlier verification in the same process (neither of the latter two makes it usable);
+the authority's certificate may lack the time-stamping usage. Binding (A): every case as a real PKI on the real clock,
 a real CMS signature by relic's builder with a real RFC 3161 token, judged by the library path of the verify command
 (pkcs7 Verify, pkcs9 VerifyOptionalTimestamp, TimestampedSignature.VerifyChain) and, for a seeded sample, by the real
 `relic verify --cert anchors [--no-trust-chain]` process on the signature file."""
@@ -14,7 +16,8 @@ from checks.C15 import _absorb
 
 NEG = [("IgnoreBundled", "AcceptsAllTrusted"), ("NowNotStamp", ("AcceptsAllTrusted", "AcceptsOnlyTrusted", "ExpiredNeedsStamp")), ("SkipTsaChain", "AcceptsOnlyTrusted"),
        ("StampSelfVouches", ("AcceptsOnlyTrusted", "ForeignStampCondemns")), ("NoChainDefault", ("AcceptsOnlyTrusted", "NoAnchorNoTrust", "ExpiredNeedsStamp", "StrangerNeverByAccident")),
-       ("AnchorNeedsNoValidity", ("AcceptsOnlyTrusted", "ExpiredNeedsStamp"))]
+       ("AnchorNeedsNoValidity", ("AcceptsOnlyTrusted", "ExpiredNeedsStamp")), ("TsaAnyUsage", ("AcceptsOnlyTrusted", "ExpiredNeedsStamp")),
+       ("SharedPool", ("AcceptsOnlyTrusted",))]
 
 
 def run(t):
@@ -23,14 +26,14 @@ def run(t):
     relic = build_relic()
     r = run_tlc("VerifyTrust_MC", "VerifyTrust_MC.cfg", timeout=900, want_beh=False)
     tlc_must_pass(r, "VerifyTrust_MC")
-    run.add_tlc(r, "VerifyTrust mc (signer issued by intermediate / root / itself / a stranger x validity windows x intermediate CA or not, bundled or not x 5 anchor sets x timestamp none / own / foreign x authority under root or stranger x attested time x now x --no-trust-chain; liveness Terminates)")
+    run.add_tlc(r, "VerifyTrust mc (signer issued by intermediate / root / itself / a stranger x validity windows x intermediate CA or not, bundled with the signature / only in the token / not, met earlier in the process or not x 5 anchor sets x timestamp none / own / foreign x authority under root or stranger, with or without the time-stamping usage x attested time x now x --no-trust-chain; liveness Terminates)")
     for v, inv in NEG:
         tlc_must_fail(run_tlc("VerifyTrust_MC", f"VerifyTrust_Neg_{v}.cfg", timeout=300, want_beh=False, workers=8), v, expect=inv)
     run.cov["negative_controls"] = [v for v, _ in NEG]
     g = run_tlc("VerifyTrust_Gen", "VerifyTrust_Gen.cfg", timeout=900)
     tlc_must_pass(g, "VerifyTrust_Gen")
     run.add_tlc(g, "VerifyTrust gen")
-    if len(g.beh) < 80000:
+    if len(g.beh) < 110000:
         raise NoVerdict(f"only {len(g.beh)} VerifyTrust cases")
     every = 40 if t == "quick" else 4
     d = scratch("x07")
